@@ -21,6 +21,16 @@ class LazyIterator:
         return self.get_iterator()
 
 
+def unshared_copy(obj):
+    # A deep copy in which no dict or list is shared: descriptors in which e.g. several resources refer
+    # to one schema object would otherwise let a change to one resource show up in the others
+    if isinstance(obj, dict):
+        return dict((k, unshared_copy(v)) for k, v in obj.items())
+    if isinstance(obj, list):
+        return [unshared_copy(v) for v in obj]
+    return copy.deepcopy(obj)
+
+
 class DataStreamProcessor:
 
     def __init__(self):
@@ -78,7 +88,7 @@ class DataStreamProcessor:
         datastream = self.source._process()
 
         try:
-            self.datapackage = Package(descriptor=copy.deepcopy(datastream.dp.descriptor))
+            self.datapackage = Package(descriptor=unshared_copy(datastream.dp.descriptor))
             self.datapackage = self.process_datapackage(self.datapackage)
             self.datapackage.commit()
 
